@@ -312,17 +312,36 @@ def run(repo: Repo, chk: Check):
                 ok_ord = True
     chk.judge("R04.f", "register_assignment:assign_registers:a scope is ordered only after all scopes it is called from", ok_ord,
               "sorted_scopes.append(scope) is not guarded by called_from[scope] ⊆ already-sorted scopes", None, wa)
-    # functions are callees of every module scope (module-level values live forever)
-    ok_mod = False
+    rule_functions_below_modules(repo, chk, "R04.f")
+
+
+def rule_functions_below_modules(repo, chk, R):
+    """Every function scope is a callee of every library module scope (R04.f / R13.f)."""
+    ra = repo.mod("register_assignment")
+    af = ra.func("assign_registers")
+    cfg, rd = fn_ctx(af)
+    wa = f"{ra.path}:{af.lineno} in assign_registers"
+    ok_mod, detail = False, []
     for lp in ast.walk(af):
         if isinstance(lp, ast.For) and norm(lp.iter) == "called_from":
             for c in ast.walk(lp):
-                if isinstance(c, ast.Call) and isinstance(c.func, ast.Attribute) and c.func.attr in ("update", "add") and "called_from" in norm(c.func.value) \
-                        and c.args and "module" in norm(c.args[0]):
-                    ok_mod = True
-    chk.judge("R04.f", "register_assignment:assign_registers:every function scope is a callee of every library module scope", ok_mod,
-              "functions are no longer marked as called from the library modules' scopes: a function could be given a register that holds a library global",
-              None, wa)
+                if isinstance(c, ast.Call) and isinstance(c.func, ast.Attribute) and c.func.attr in ("update",) and "called_from" in norm(c.func.value) and c.args:
+                    a = c.args[0]
+                    detail.append(norm(a))
+                    ids = live_ids(cfg, c)
+                    full = False
+                    if isinstance(a, ast.Name) and ids:
+                        ds = rd.at(ids[0], a.id)
+                        full = bool(ds) and all(d.kind == "assign" and d.value is not None and norm(d.value) in ("set(data.modules.keys())", "set(data.modules)", "data.modules.keys()") for d in ds)
+                    elif norm(a) in ("data.modules", "data.modules.keys()", "set(data.modules.keys())"):
+                        full = True
+                    # no per-function condition besides skipping the main region
+                    extra = [norm(t) for t, p in (guard_atoms(cfg, ids[0]) if ids else []) if not (isinstance(t, ast.Compare) and any(isinstance(k, ast.Constant) and k.value == "" for k in t.comparators))]
+                    ok_mod = full and not extra
+    chk.judge(R, "register_assignment:assign_registers:every function scope is a callee of every library module scope", ok_mod,
+              f"functions are marked as called from {detail or 'no module scope'}: expected the set of ALL library modules for every function. Module-level values "
+              f"live for the whole program, so a function that skips one module's scope can be given a register that holds that module's global",
+              {"callers_added": detail}, wa)
 
 
 def _static_truth(test):
